@@ -264,7 +264,7 @@ class G:
         if r < 10:
             return "include " + '"b.typ"'
         if r < 11:
-            return "x = " + g.expr()
+            return self.r.pick(["x", "a.b", "(x, y)", "_"]) + self.r.pick([" = ", " += ", " -= ", " *= ", " /= ", "=", "/="]) + g.expr()
         return g.expr()
 
     def statements(self):
